@@ -101,6 +101,16 @@ CLAIMED = {
              "public report/link tables after each step are validated by TLC.",
         note="id domains are small (2+1 reports, 2+1 events, 2+1 variables); requests have at most two entries",
         design="5/C12"),
+    "C11": dict(
+        technique="TLA+ monitor E30ControlMon/E30Control checked by TLC; its transition relation replayed on a real "
+                  "GemEquipmentHandler (driver as host and operator, virtual T3 for the unanswered probe); every step validated by "
+                  "TLC (E30ControlJudge)",
+        text="The E30 control model (all 8 initial configurations, remembered sub-state, ONLACK/OFLACK codes, collection events on "
+             "transitions, control-state status variable) is a TLA+ monitor checked by TLC on all histories; one shortest history "
+             "per monitor edge plus random walks run on a real equipment handler with the attempt-online probe answered, aborted "
+             "or left unanswered; reply codes, S6F11 CEIDs, refusals, state and SV of each step are validated by TLC.",
+        note="communication is established before each history; link loss during a history is C07's subject",
+        design="5/C11"),
 }
 
 NOT_YET = "check not built yet in this round (specification and harness in progress; see DESIGN.md section 9)"
